@@ -1933,7 +1933,7 @@ def run(rep, world, stats, tier, rng) -> int:
     import subprocess
     try:
         outs = C.coq_eval_blocks(f"{PID}_{tier}", HDR, blocks, nfiles=4,
-            timeout=300 if tier != "thorough" else 1500)
+            timeout=1200 if tier != "thorough" else 3000)
     except subprocess.TimeoutExpired:
         rep.violation("model_timeout", {"kind": "model", "what": "evaluating the model in Coq timed out "
             "(search explosion in the matcher on some generated case); nothing was compared"},
